@@ -2,8 +2,9 @@
     Model/M_C19.v was written against.  GENERATED ONCE by a script, then frozen by hand: every lemma is
     `reflexivity` between the regenerated table and the literal copied here, so any change of a key, a
     value expression, a default, an argument order or a statement in a to_dict / from_dict / __init__ of an
-    anchored class makes this file stop compiling (fail closed).  At the known defect sites both the current
-    and the repaired text are accepted, selected by the regenerated flag. *)
+    anchored class makes this file stop compiling (fail closed).  At the still-open defect sites both the
+    current and the repaired text are accepted, selected by the regenerated flag; sites repaired by a `fix:`
+    commit are pinned in their repaired form only. *)
 From Coq Require Import List String Bool.
 From OV Require Import Gen.C19Codec Model.M_C19.
 Import ListNotations.
@@ -11,7 +12,7 @@ Import ListNotations.
 (** the implementation as described by the current sources *)
 Definition impl_now : impl :=
   mkImpl k_flag_fresnel_nested k_flag_pol_codec k_flag_image_from_dict k_flag_aperture_none_ok
-         k_flag_pickups_applied_on_load.
+         k_flag_pickups_applied_on_load k_flag_plane_conic.
 
 (** optiland/optic.py :: Optic *)
 Lemma pin_Optic_bases : k_codec_Optic_bases = [].
@@ -48,54 +49,8 @@ Lemma pin_Optic_to_dict : k_codec_Optic_to_dict =
     ("<stmt>"%string, "return data"%string)].
 Proof. reflexivity. Qed.
 Lemma pin_Optic_from_dict : k_codec_Optic_from_dict =
-   match k_flag_pol_codec, k_flag_aperture_none_ok with
-   | false, false => [("<args>"%string, "cls, data"%string);
-    ("<stmt>"%string, "optic = cls()"%string);
-    ("<stmt>"%string, "optic.aperture = Aperture.from_dict(data['aperture'])"%string);
-    ("<stmt>"%string, "optic.surface_group = SurfaceGroup.from_dict(data['surface_group'])"%string);
-    ("<stmt>"%string, "optic.fields = FieldGroup.from_dict(data['fields'])"%string);
-    ("<stmt>"%string, "optic.wavelengths = WavelengthGroup.from_dict(data['wavelengths'])"%string);
-    ("<stmt>"%string, "optic.pickups = PickupManager.from_dict(optic, data['pickups'])"%string);
-    ("<stmt>"%string, "optic.solves = SolveManager.from_dict(optic, data['solves'])"%string);
-    ("<stmt>"%string, "optic.polarization = data['wavelengths']['polarization']"%string);
-    ("<stmt>"%string, "optic.field_type = data['fields']['field_type']"%string);
-    ("<stmt>"%string, "optic.obj_space_telecentric = data['fields']['object_space_telecentric']"%string);
-    ("<stmt>"%string, "optic.paraxial = Paraxial(optic)"%string);
-    ("<stmt>"%string, "optic.aberrations = Aberrations(optic)"%string);
-    ("<stmt>"%string, "optic.ray_generator = RayGenerator(optic)"%string);
-    ("<stmt>"%string, "return optic"%string)]
-   | true, false => [("<args>"%string, "cls, data"%string);
-    ("<stmt>"%string, "optic = cls()"%string);
-    ("<stmt>"%string, "optic.aperture = Aperture.from_dict(data['aperture'])"%string);
-    ("<stmt>"%string, "optic.surface_group = SurfaceGroup.from_dict(data['surface_group'])"%string);
-    ("<stmt>"%string, "optic.fields = FieldGroup.from_dict(data['fields'])"%string);
-    ("<stmt>"%string, "optic.wavelengths = WavelengthGroup.from_dict(data['wavelengths'])"%string);
-    ("<stmt>"%string, "optic.pickups = PickupManager.from_dict(optic, data['pickups'])"%string);
-    ("<stmt>"%string, "optic.solves = SolveManager.from_dict(optic, data['solves'])"%string);
-    ("<stmt>"%string, "polarization = data['wavelengths']['polarization']"%string);
-    ("<stmt>"%string, "optic.polarization = PolarizationState.from_dict(polarization) if isinstance(polarization, dict) else polarization"%string);
-    ("<stmt>"%string, "optic.field_type = data['fields']['field_type']"%string);
-    ("<stmt>"%string, "optic.obj_space_telecentric = data['fields']['object_space_telecentric']"%string);
-    ("<stmt>"%string, "optic.paraxial = Paraxial(optic)"%string);
-    ("<stmt>"%string, "optic.aberrations = Aberrations(optic)"%string);
-    ("<stmt>"%string, "optic.ray_generator = RayGenerator(optic)"%string);
-    ("<stmt>"%string, "return optic"%string)]
-   | false, true => [("<args>"%string, "cls, data"%string);
-    ("<stmt>"%string, "optic = cls()"%string);
-    ("<stmt>"%string, "optic.aperture = Aperture.from_dict(data['aperture']) if data['aperture'] else None"%string);
-    ("<stmt>"%string, "optic.surface_group = SurfaceGroup.from_dict(data['surface_group'])"%string);
-    ("<stmt>"%string, "optic.fields = FieldGroup.from_dict(data['fields'])"%string);
-    ("<stmt>"%string, "optic.wavelengths = WavelengthGroup.from_dict(data['wavelengths'])"%string);
-    ("<stmt>"%string, "optic.pickups = PickupManager.from_dict(optic, data['pickups'])"%string);
-    ("<stmt>"%string, "optic.solves = SolveManager.from_dict(optic, data['solves'])"%string);
-    ("<stmt>"%string, "optic.polarization = data['wavelengths']['polarization']"%string);
-    ("<stmt>"%string, "optic.field_type = data['fields']['field_type']"%string);
-    ("<stmt>"%string, "optic.obj_space_telecentric = data['fields']['object_space_telecentric']"%string);
-    ("<stmt>"%string, "optic.paraxial = Paraxial(optic)"%string);
-    ("<stmt>"%string, "optic.aberrations = Aberrations(optic)"%string);
-    ("<stmt>"%string, "optic.ray_generator = RayGenerator(optic)"%string);
-    ("<stmt>"%string, "return optic"%string)]
-   | true, true => [("<args>"%string, "cls, data"%string);
+   if k_flag_pol_codec
+   then [("<args>"%string, "cls, data"%string);
     ("<stmt>"%string, "optic = cls()"%string);
     ("<stmt>"%string, "optic.aperture = Aperture.from_dict(data['aperture']) if data['aperture'] else None"%string);
     ("<stmt>"%string, "optic.surface_group = SurfaceGroup.from_dict(data['surface_group'])"%string);
@@ -111,7 +66,21 @@ Lemma pin_Optic_from_dict : k_codec_Optic_from_dict =
     ("<stmt>"%string, "optic.aberrations = Aberrations(optic)"%string);
     ("<stmt>"%string, "optic.ray_generator = RayGenerator(optic)"%string);
     ("<stmt>"%string, "return optic"%string)]
-   end.
+   else [("<args>"%string, "cls, data"%string);
+    ("<stmt>"%string, "optic = cls()"%string);
+    ("<stmt>"%string, "optic.aperture = Aperture.from_dict(data['aperture']) if data['aperture'] else None"%string);
+    ("<stmt>"%string, "optic.surface_group = SurfaceGroup.from_dict(data['surface_group'])"%string);
+    ("<stmt>"%string, "optic.fields = FieldGroup.from_dict(data['fields'])"%string);
+    ("<stmt>"%string, "optic.wavelengths = WavelengthGroup.from_dict(data['wavelengths'])"%string);
+    ("<stmt>"%string, "optic.pickups = PickupManager.from_dict(optic, data['pickups'])"%string);
+    ("<stmt>"%string, "optic.solves = SolveManager.from_dict(optic, data['solves'])"%string);
+    ("<stmt>"%string, "optic.polarization = data['wavelengths']['polarization']"%string);
+    ("<stmt>"%string, "optic.field_type = data['fields']['field_type']"%string);
+    ("<stmt>"%string, "optic.obj_space_telecentric = data['fields']['object_space_telecentric']"%string);
+    ("<stmt>"%string, "optic.paraxial = Paraxial(optic)"%string);
+    ("<stmt>"%string, "optic.aberrations = Aberrations(optic)"%string);
+    ("<stmt>"%string, "optic.ray_generator = RayGenerator(optic)"%string);
+    ("<stmt>"%string, "return optic"%string)].
 Proof. reflexivity. Qed.
 
 (** optiland/surfaces/surface_group.py :: SurfaceGroup *)
@@ -230,16 +199,14 @@ Lemma pin_ImageSurface_to_dict : k_codec_ImageSurface_to_dict =
    [("<absent>"%string, ""%string)].
 Proof. reflexivity. Qed.
 Lemma pin_ImageSurface_p_from_dict : k_codec_ImageSurface_p_from_dict =
-   if k_flag_image_from_dict
-   then [("<args>"%string, "cls, data"%string);
+   [("<args>"%string, "cls, data"%string);
     ("<stmt>"%string, "geometry = BaseGeometry.from_dict(data['geometry'])"%string);
     ("<stmt>"%string, "material_pre = BaseMaterial.from_dict(data['material_pre'])"%string);
     ("<stmt>"%string, "aperture = BaseAperture.from_dict(data['aperture']) if data['aperture'] else None"%string);
     ("<return-call>"%string, "cls"%string);
     ("#0"%string, "geometry"%string);
     ("#1"%string, "material_pre"%string);
-    ("#2"%string, "aperture"%string)]
-   else [("<absent>"%string, ""%string)].
+    ("#2"%string, "aperture"%string)].
 Proof. reflexivity. Qed.
 Lemma pin_ImageSurface_init : k_codec_ImageSurface_init =
    [("<args>"%string, "self, geometry, material_pre, aperture=None"%string);
@@ -312,7 +279,17 @@ Proof. reflexivity. Qed.
 Lemma pin_Plane_bases : k_codec_Plane_bases = ["BaseGeometry"%string].
 Proof. reflexivity. Qed.
 Lemma pin_Plane_to_dict : k_codec_Plane_to_dict =
-   [("<args>"%string, "self"%string);
+   if k_flag_plane_conic
+   then [("<args>"%string, "self"%string);
+    ("<stmt>"%string, "geometry_dict = super().to_dict()"%string);
+    ("<dict>"%string, "geometry_dict.update"%string);
+    ("radius"%string, "np.inf"%string);
+    ("</dict>"%string, ""%string);
+    ("<if>"%string, "getattr(self, 'k', 0) != 0"%string);
+    ("  geometry_dict.conic"%string, "self.k"%string);
+    ("<endif>"%string, ""%string);
+    ("<stmt>"%string, "return geometry_dict"%string)]
+   else [("<args>"%string, "self"%string);
     ("<stmt>"%string, "geometry_dict = super().to_dict()"%string);
     ("<dict>"%string, "geometry_dict.update"%string);
     ("radius"%string, "np.inf"%string);
@@ -320,7 +297,15 @@ Lemma pin_Plane_to_dict : k_codec_Plane_to_dict =
     ("<stmt>"%string, "return geometry_dict"%string)].
 Proof. reflexivity. Qed.
 Lemma pin_Plane_from_dict : k_codec_Plane_from_dict =
-   [("<args>"%string, "cls, data"%string);
+   if k_flag_plane_conic
+   then [("<args>"%string, "cls, data"%string);
+    ("<stmt>"%string, "cs = CoordinateSystem.from_dict(data['cs'])"%string);
+    ("<stmt>"%string, "plane = cls(cs)"%string);
+    ("<if>"%string, "data.get('conic', 0) != 0"%string);
+    ("<stmt>"%string, "  plane.k = data['conic']"%string);
+    ("<endif>"%string, ""%string);
+    ("<stmt>"%string, "return plane"%string)]
+   else [("<args>"%string, "cls, data"%string);
     ("<stmt>"%string, "cs = CoordinateSystem.from_dict(data['cs'])"%string);
     ("<return-call>"%string, "cls"%string);
     ("#0"%string, "cs"%string)].
@@ -406,13 +391,37 @@ Proof. reflexivity. Qed.
 Lemma pin_EvenAsphere_bases : k_codec_EvenAsphere_bases = ["NewtonRaphsonGeometry"%string].
 Proof. reflexivity. Qed.
 Lemma pin_EvenAsphere_to_dict : k_codec_EvenAsphere_to_dict =
-   [("<args>"%string, "self"%string);
+   if k_flag_evenasphere_copies
+   then [("<args>"%string, "self"%string);
+    ("<stmt>"%string, "data = super().to_dict()"%string);
+    ("data.coefficients"%string, "list(self.c)"%string);
+    ("<stmt>"%string, "return data"%string)]
+   else [("<args>"%string, "self"%string);
     ("<stmt>"%string, "data = super().to_dict()"%string);
     ("data.coefficients"%string, "self.c"%string);
     ("<stmt>"%string, "return data"%string)].
 Proof. reflexivity. Qed.
 Lemma pin_EvenAsphere_from_dict : k_codec_EvenAsphere_from_dict =
-   [("<args>"%string, "cls, data"%string);
+   if k_flag_evenasphere_copies
+   then [("<args>"%string, "cls, data"%string);
+    ("<stmt>"%string, "required_keys = {'cs', 'radius'}"%string);
+    ("<if>"%string, "not required_keys.issubset(data)"%string);
+    ("<stmt>"%string, "  missing = required_keys - data.keys()"%string);
+    ("<stmt>"%string, "  raise ValueError(f'Missing required keys: {missing}')"%string);
+    ("<endif>"%string, ""%string);
+    ("<stmt>"%string, "cs = CoordinateSystem.from_dict(data['cs'])"%string);
+    ("<stmt>"%string, "conic = data.get('conic', 0.0)"%string);
+    ("<stmt>"%string, "tol = data.get('tol', 1e-10)"%string);
+    ("<stmt>"%string, "max_iter = data.get('max_iter', 100)"%string);
+    ("<stmt>"%string, "coefficients = list(data.get('coefficients', []))"%string);
+    ("<return-call>"%string, "cls"%string);
+    ("#0"%string, "cs"%string);
+    ("#1"%string, "data['radius']"%string);
+    ("#2"%string, "conic"%string);
+    ("#3"%string, "tol"%string);
+    ("#4"%string, "max_iter"%string);
+    ("#5"%string, "coefficients"%string)]
+   else [("<args>"%string, "cls, data"%string);
     ("<stmt>"%string, "required_keys = {'cs', 'radius'}"%string);
     ("<if>"%string, "not required_keys.issubset(data)"%string);
     ("<stmt>"%string, "  missing = required_keys - data.keys()"%string);
@@ -704,30 +713,18 @@ Proof. reflexivity. Qed.
 Lemma pin_FresnelCoating_bases : k_codec_FresnelCoating_bases = ["BaseCoatingPolarized"%string].
 Proof. reflexivity. Qed.
 Lemma pin_FresnelCoating_to_dict : k_codec_FresnelCoating_to_dict =
-   if k_flag_fresnel_nested
-   then [("<args>"%string, "self"%string);
+   [("<args>"%string, "self"%string);
     ("<dict>"%string, "return"%string);
     ("type"%string, "self.__class__.__name__"%string);
     ("material_pre"%string, "self.material_pre.to_dict()"%string);
     ("material_post"%string, "self.material_post.to_dict()"%string);
-    ("</dict>"%string, ""%string)]
-   else [("<args>"%string, "self"%string);
-    ("<dict>"%string, "return"%string);
-    ("type"%string, "self.__class__.__name__"%string);
-    ("material_pre"%string, "self.material_pre"%string);
-    ("material_post"%string, "self.material_post"%string);
     ("</dict>"%string, ""%string)].
 Proof. reflexivity. Qed.
 Lemma pin_FresnelCoating_from_dict : k_codec_FresnelCoating_from_dict =
-   if k_flag_fresnel_nested
-   then [("<args>"%string, "cls, data"%string);
+   [("<args>"%string, "cls, data"%string);
     ("<return-call>"%string, "cls"%string);
     ("#0"%string, "BaseMaterial.from_dict(data['material_pre'])"%string);
-    ("#1"%string, "BaseMaterial.from_dict(data['material_post'])"%string)]
-   else [("<args>"%string, "cls, data"%string);
-    ("<return-call>"%string, "cls"%string);
-    ("#0"%string, "data['material_pre']"%string);
-    ("#1"%string, "data['material_post']"%string)].
+    ("#1"%string, "BaseMaterial.from_dict(data['material_post'])"%string)].
 Proof. reflexivity. Qed.
 Lemma pin_FresnelCoating_init : k_codec_FresnelCoating_init =
    [("<args>"%string, "self, material_pre, material_post"%string);
@@ -1042,14 +1039,7 @@ Lemma pin_PickupManager_to_dict : k_codec_PickupManager_to_dict =
     ("<stmt>"%string, "return [pickup.to_dict() for pickup in self.pickups]"%string)].
 Proof. reflexivity. Qed.
 Lemma pin_PickupManager_from_dict : k_codec_PickupManager_from_dict =
-   if k_flag_pickups_applied_on_load
-   then [("<args>"%string, "cls, optic, data"%string);
-    ("<stmt>"%string, "manager = cls(optic)"%string);
-    ("<for>"%string, "pickup_data in data"%string);
-    ("<stmt>"%string, "  manager.add(**pickup_data)"%string);
-    ("<endfor>"%string, ""%string);
-    ("<stmt>"%string, "return manager"%string)]
-   else [("<args>"%string, "cls, optic, data"%string);
+   [("<args>"%string, "cls, optic, data"%string);
     ("<stmt>"%string, "manager = cls(optic)"%string);
     ("<for>"%string, "pickup_data in data"%string);
     ("<stmt>"%string, "  manager.pickups.append(Pickup.from_dict(optic, pickup_data))"%string);
